@@ -26,7 +26,7 @@ META = {
  "C05": dict(
   text="Schedule-owning random testing: the real Scheduler, Stages, WorkerPool and cached-output Walker are assembled exactly as BuildParallelProcessor assembles them and driven by a single-threaded loop in which the generator draws which pending command (segment job on the real tier2, store merge, cached-output download, schedule/try-merge message) completes next, from generated initial cache states; invariants are checked after every step (no panic or invalid transition, a started job finds every lower-stage snapshot it loads, merges consecutive and unique per stage, Completed is absorbing, bounded termination, never stalled) and at quit (no error, stores at the hand-off and streamed outputs equal to the sequential execution, every requested output file written).",
   design_ref="DESIGN.md section 3, C05",
-  note="A heavy command runs atomically when it is drawn (its start and completion are not separated) and asynchronous snapshot writes are quiesced before each heavy command, so the write-after-merge timing race is outside this check; liveness is termination within a step bound on explored schedules. The real event loop with steered job order is exercised by C01/C07.",
+  note="A heavy command runs atomically when it is drawn and asynchronous snapshot writes are quiesced before each heavy command, so the write-after-merge timing race is outside this check; liveness is termination within a step bound on explored schedules. Half of the cases queue the messages of completed commands FIFO as loop.EventLoop does (handling the oldest message is a choice of its own); one case in three owns one thread interleaving of the squasher (the racing snapshot read of getPartialOrFullKV is held and completed at a chosen later point, world/lateread.go). The real event loop with steered job order is exercised by C01/C07.",
   technique="rapid-driven schedule exploration of the real scheduler (owned event loop) with step invariants"),
  "C06": dict(
   text="Metamorphic random testing of the module identifier: on generated valid graphs, one single-field mutation of one module must change exactly the identifiers of that module and of its descendants (harness-computed reachability), and the identity transformations (consistent rename incl. alias prefixes, insertion of unrelated modules/binaries, binary re-indexing) must change none; recomputation, reverse query order and exec.NewOutputModuleGraph must agree.",
